@@ -54,6 +54,10 @@ CASES = [
     ('sort ascending on 300 numbers with duplicates', 'a = []; for "_i" from 1 to 300 do { a pushBack (_i % 3) }; a sort true; [a select 0, a select 299]', '[0,2]'),
     ('selectRandom of an empty array gives nil', 'isNil { selectRandom [] }', 'true'),
     ('selectRandom of one element', 'selectRandom [5]', '5'),
+    ('group variables read back', 'g = createGroup west; g setVariable ["a", 1]; [g getVariable "a", g getVariable ["b", 5], isNil { g getVariable "zz" }]', '[1,5,true]'),
+    ('getVariable on the null group gives nil', '{ grpNull getVariable "a" } except__ { }; 7', '7'),
+    ('setVariable on the null group is refused', '{ grpNull setVariable ["a", 1] } except__ { }; 7', '7'),
+    ('group getVariable with bad parameters', 'g = createGroup west; { g getVariable [1, 2] } except__ { }; { g getVariable ["a"] } except__ { }; 7', '7'),
 ]
 def search(sqfvm):
     for (name, code, want) in CASES:
